@@ -7,6 +7,7 @@
 //	-seed N       selects the second concretisation of each case
 //	-trace FILE   write the observed Nesting.Sets() of every step (identity concretisation) as
 //	              ndjson for validation by IntervalTrace.tla (direction B)
+//	-tracemod M -tracerem R   record only every M-th case (those with index % M == R)
 //	-cap N        at most N lines per disagreement class (all are counted in stats.class_counts)
 //	-corrupt N    self-test of the binding: flip one expectation in case N (must be reported)
 package main
@@ -86,6 +87,8 @@ func main() {
 	seed := flag.Int64("seed", 1, "")
 	tracePath := flag.String("trace", "", "")
 	corrupt := flag.Int64("corrupt", -1, "")
+	traceMod := flag.Int64("tracemod", 1, "")
+	traceRem := flag.Int64("tracerem", 0, "")
 	flag.IntVar(&capPer, "cap", 200, "")
 	flag.Parse()
 
@@ -123,7 +126,7 @@ func main() {
 		}
 		n++
 		// identity concretisation always, one seeded other
-		runVariant(&c, variants(c.MaxP)[0], traceEnc != nil)
+		runVariant(&c, variants(c.MaxP)[0], traceEnc != nil && n%*traceMod == *traceRem%*traceMod)
 		vs := variants(c.MaxP)
 		k := 1 + int((uint64(n)*2654435761+uint64(*seed)*40503)%uint64(len(vs)-1))
 		runVariant(&c, vs[k], false)
